@@ -3,6 +3,7 @@ package main
 import (
 	"go/token"
 	"sort"
+	"strings"
 
 	"golang.org/x/tools/go/ssa"
 )
@@ -30,6 +31,20 @@ func runC13(c *Ctx) {
 	c.armPoolError("G4-pool-reports-the-error", func(m string) bool { return m == "ExecuteDAGModel" }, 1)
 	// ... and hand their own arguments to the engine method of the same name, each in its place
 	c.armPoolArgs("G6-pool-passes-its-arguments", func(m string) bool { return m == "ExecuteDAGModel" }, 1)
+	// a rule that faults fails: RuleEntity.Execute turns a panic of the rule body into its (named) error
+	// result (C09-R1 for this function); without that a faulting rule counts as a success and whatever the
+	// model makes depend on "nothing before failed" runs all the same
+	if f := c.MustFn("G7-a-faulting-rule-fails", "internal/base", "RuleEntity", "Execute"); f != nil {
+		ok, why := c.panicSafe(f)
+		c.Check("G7-a-faulting-rule-fails", "RuleEntity.Execute", ok, f.Pos(), "%s", why)
+	}
+	// ... and every error of a rule counts: the engine looks at a rule's error only to see whether there is one.
+	// The sentinels of break and continue are compared by the loop statements alone (C02-S5): an engine helper
+	// that "forgives" a rule that ended in a stray break reports a failed rule as a success, and the next layer starts
+	c.only = func(key string) bool { return strings.HasSuffix(key, "#readers") }
+	c.ruleS5("G8-every-error-of-a-rule-counts")
+	c.only = nil
+	c.Min("G8-every-error-of-a-rule-counts", 2)
 
 	fn := c.MustFn("G1-layer-barrier", "engine", "Gengine", "ExecuteDAGModel")
 	if fn == nil {
